@@ -199,7 +199,7 @@ pub fn alphabet11() -> Vec<Tok> {
 pub fn alphabet23() -> Vec<Tok> {
     [
         "1", "2.5", "a", "f", "\"s\"", "true", "(", ")", "+", "-", "*", "/", "%", "^", "!", "<", "==", "&&", "||",
-        "=", "&&=", ",", ";",
+        "=", "&&=", ",", ";", "\"\\\"(\"",
     ]
     .iter()
     .map(|s| tok(s))
@@ -210,7 +210,7 @@ pub fn alphabet23() -> Vec<Tok> {
 pub fn alphabet_all() -> Vec<Tok> {
     let mut v: Vec<Tok> = crate::refmodel::lex::OPS.iter().map(|o| tok(o)).collect();
     // (the last three are words the documentation does not define; a separator must not change them either)
-    for w in ["1", "2.5", "0x1f", "1e3", "a", "f", "x", "true", "\"s\"", "\"/*\"", "1e", "9223372036854775808", "0xffffffffffffffffff", "1e999"] {
+    for w in ["1", "2.5", "0x1f", "1e3", "a", "f", "x", "true", "\"s\"", "\"/*\"", "1e", "9223372036854775808", "0xffffffffffffffffff", "1e999", "\")\\\"\"", "\"(\""] {
         v.push(tok(w));
     }
     v
